@@ -66,6 +66,16 @@ def run_shard(ctx):
     res = ctx.res
     drv = ctx.driver()
     seq = iter(range(ctx.shard, 4097, ctx.nshards))
+    # a user unit family whose conversion codes are written with based literals ({value} * 0x10): they are numbers like any other
+    fam_setup = ([{'op': 'new_calc', 'c': 6, 'seg': True}, {'op': 'add_type', 'c': 6, 'name': 'disk'},
+                  {'op': 'add_type_item', 'c': 6, 'name': 'disk', 'index': 1, 'format': '{value} sector', 'parse': ['{NUMBER:value} {TEXT:type:sectorq}'], 'up': '{value} / 0x10',
+                   'down': '{value}', 'names': ['sectorq']},
+                  {'op': 'add_type_item', 'c': 6, 'name': 'disk', 'index': 2, 'format': '{value} cluster', 'parse': ['{NUMBER:value} {TEXT:type:clusterq}'], 'up': '{value} / 0b100',
+                   'down': '{value} * 0x10', 'names': ['clusterq']},
+                  {'op': 'add_type_item', 'c': 6, 'name': 'disk', 'index': 3, 'format': '{value} track', 'parse': ['{NUMBER:value} {TEXT:type:trackq}'], 'up': '{value}',
+                   'down': '{value} * 0o4', 'names': ['trackq']}])
+    drv.run(fam_setup)
+    fam_probes = [('3 clusterq to sectorq', 48.0), ('64 sectorq to clusterq', 4.0), ('2 trackq to sectorq', 128.0), ('128 sectorq to trackq', 2.0), ('0x3 clusterq to sectorq', 48.0)]
     while not ctx.out_of_time():
         sep = rng.choice(SEP_CONFIGS)
         # the number format settings (digits, zero-fraction removal, fraction rounding) must not influence a base conversion
@@ -149,6 +159,18 @@ def run_shard(ctx):
                     cls = 'arith-leading-sign'          # only the value is judged (which base the result is shown in is not stated)
             items.append(('en', text))
             meta.append((text, want_n, want_base, cls))
+        for (text, want), r in zip(fam_probes, drv.run([{'op': 'execute', 'c': 6, 'lang': 'en', 'text': t} for t, _ in fam_probes])):
+            if 'lines' not in r and 'panic' not in r:
+                drv.run(fam_setup)
+                break
+            slot = mon.slot0(r)
+            res.cases += 1
+            res.count('class:based-literals-in-unit-codes')
+            if mon.kind(slot) == 'unit' and mon.fval(slot) == want:
+                res.count('ok')
+            else:
+                res.violation('base:in-unit-code', 'with the unit codes {value} / 0x10, {value} * 0x10, {value} / 0b100, {value} * 0o4 the line %r should give %r, got %s' % (text, want, mon.describe(slot)),
+                              {'lang': 'en', 'text': text, 'ops': fam_setup + [{'op': 'execute', 'c': 6, 'lang': 'en', 'text': text}]})
         rs = mon.run_lines(drv, cfg, items)
         second, second_meta = [], []
         for (text, want_n, want_base, cls), r in zip(meta, rs):
